@@ -12,6 +12,13 @@
 //!           ingress-triggered reply to the peer or to a second pre-resolved neighbour B; on
 //!           Ethernet every frame's link-layer destination must be the hardware address of the
 //!           neighbour owning its IP destination (also checked in every other tx part).
+//!  * tx/S1e the poll_at-following application: it polls ONLY when the device received a frame or
+//!           `poll_at` names a deadline (None = sleeps forever); single datagrams and ordered
+//!           pairs (udp, raw, ingress-triggered echo reply; unlimited device and one-frame-per-poll
+//!           device). When it stops, everything accepted must be completely on the wire; if the
+//!           rest only comes out under unconditional polling: `C12/tx/complete/stalls-when-following-poll-at`.
+//!           (All other tx parts poll unconditionally until nothing more comes out; the S2 BFS has
+//!           both terminal events, `Quiesce` and `QuiesceFollow`.)
 //!  * tx/S2  back-to-back (E1 BFS): two UDP sockets + raw socket + inbound oversized echo
 //!           requests, interleaved with poll / poll_egress / ingress / device back-pressure.
 //!  * rx     (E2): all permutations (+ one duplicate, + overlapping retransmission, + two
@@ -248,6 +255,7 @@ pub fn run(tier: Tier) -> i32 {
     tx::run_s1b(&mut rep, tier);
     tx::run_s1c(&mut rep, tier);
     tx::run_s1d(&mut rep, tier);
+    tx::run_s1e(&mut rep, tier);
     bfs::run_s2(&mut rep, tier);
     rx::run_rx(&mut rep, tier);
     rep.cov(
@@ -263,7 +271,7 @@ pub fn replay(art: &Value) -> i32 {
         return bfs::replay(h, art);
     }
     match r["part"].as_str() {
-        Some("s1d") | Some("s1") | Some("s1b") | Some("s1c") => tx::replay(r),
+        Some("s1e") | Some("s1d") | Some("s1") | Some("s1b") | Some("s1c") => tx::replay(r),
         Some("rx") => rx::replay(r),
         _ => {
             eprintln!("MACHINERY ERROR: artefact has no known part/harness");
